@@ -616,10 +616,11 @@ theorem step2_group (n : Nat) (hin : StepIH d cfg dec n) (inp : PQ2) (hp : PSz d
 theorem step2_filter (n : Nat) (hin : StepIH d cfg dec n) (inp : PQ2) (pred : Plan) (hp : PSz d n inp) (pos : Nat)
     (pm : Option (List (Nat × Nat))) (c : Ref) (hi : (PQ2.filter inp pred pos pm).Inv d) (hg : Good d c) :
     Step2 d cfg dec (.filter inp pred pos pm) c := by
-  refine fmap_step (mach2 d cfg dec) (mach2_laws d cfg dec) (Good d) (PSz d n) (PSz_same d cfg dec n) hin
+  -- the loop puts `t.Current()` on the candidate (`gcur`); the `defer` restores the caller's (`fin`)
+  refine fmap_step_fin (mach2 d cfg dec) (mach2_laws d cfg dec) (Good d) (PSz d n) (PSz_same d cfg dec n) hin
     (fun inp (p : Nat × Option (List (Nat × Nat))) => .filter inp pred p.1 p.2) (filterG dec pred)
-    (fun n _ => n) (fun p => (p.1, some (p.2.getD []))) (·.1) (fun _ => 0)
-    ?rem_mk ?inv_mk ?cons_mk ?same_mk ?pos_mk ?lvl_mk ?sys ?syn ?sd ?gg ?gc inp hp (pos, pm) c hi hg
+    (fun n _ => n) (fun c _ => c) (fun p => (p.1, some (p.2.getD []))) (·.1) (fun _ => 0)
+    ?rem_mk ?inv_mk ?cons_mk ?same_mk ?pos_mk ?lvl_mk ?sys ?syn ?sd ?gg ?gc ?fg inp hp (pos, pm) c hi hg
   case rem_mk => intros; rfl
   case inv_mk => intro inp p h; exact h
   case cons_mk => intro inp p h; exact h
@@ -638,23 +639,26 @@ theorem step2_filter (n : Nat) (hin : StepIH d cfg dec n) (inp : PQ2) (pred : Pl
     by_cases ht : dec pred n = true
     · simp only [ht, if_true, Prod.mk.injEq, Option.some.injEq] at h2
       obtain ⟨rfl, rfl⟩ := h2
-      simp only [PQ2.select, h1, ht, if_true]; rfl
+      rw [PQ2.select_filter, h1]
+      simp only [ht, if_true]; rfl
     · simp [ht] at h2
   case syn =>
     intro f inp p c n inp' c' p' h1 h2
     have h1 : PQ2.select d cfg dec f inp c = (.yield n, inp', c') := h1
-    show PQ2.select d cfg dec (f+1) _ _ = PQ2.select d cfg dec f _ _
+    show PQ2.select d cfg dec (f+1) _ _ = (_, _, _)
     simp only [filterG] at h2
     by_cases ht : dec pred n = true
     · simp [ht] at h2
     · simp only [ht, if_false, Bool.false_eq_true, Prod.mk.injEq, true_and] at h2
       subst h2
-      simp only [PQ2.select, h1, ht, if_false, Bool.false_eq_true]
+      rw [PQ2.select_filter, h1]
+      simp only [ht, if_false, Bool.false_eq_true]
+      rfl
   case sd =>
     intro f inp p c inp' c' h1
     have h1 : PQ2.select d cfg dec f inp c = (.done, inp', c') := h1
     show PQ2.select d cfg dec (f+1) _ _ = _
-    simp only [PQ2.select, h1]
+    rw [PQ2.select_filter, h1]
   case gg =>
     intro n a' b p m p' h hgn
     simp only [filterG] at h
@@ -662,6 +666,7 @@ theorem step2_filter (n : Nat) (hin : StepIH d cfg dec n) (inp : PQ2) (pred : Pl
     · simp only [Prod.mk.injEq, Option.some.injEq] at h; rw [← h.1]; exact hgn
     · simp at h
   case gc => intro n c h _; exact h
+  case fg => intro c x h _; exact h
 
 
 /-! ## ancestorQuery -/
@@ -774,20 +779,25 @@ theorem step2_ancestor (n : Nat) (hin : StepIH d cfg dec n) (a : AxisInfo) (s : 
 
 /-! ## followingQuery -/
 
-/-- what is left of a `followingQuery` closure -/
-def folCurOf (a : AxisInfo) (sib : Bool) (k : Ref × Option PQ) (p : Nat) (c : Ref) : List Item :=
-  if sib then numFrom p ((sibCands d k.1 false).filter (test d cfg a)) else folCur d cfg a c k.1 k.2
+/-- what is left of a `followingQuery` closure (it does not depend on `t.Current()`) -/
+def folCurOf (a : AxisInfo) (sib : Bool) (k : Ref × Option PQ) (p : Nat) (_c : Ref) : List Item :=
+  if sib then numFrom p ((sibCands d k.1 false).filter (test d cfg a)) else folCur d cfg a k.1 k.2
+
+/-- `f.iterator()` as a body of the closure scheme: `t.Current()` is passed through untouched -/
+def folBody (a : AxisInfo) (sib : Bool) (f : Nat) (k : Ref × Option PQ) (p : Nat) (c : Ref) :
+    Res (Ref × (Ref × Option PQ) × Nat) × Ref :=
+  (folCall d cfg a sib f k p, c)
 
 /-- the one-pull lemma for `followingQuery`, given the specification of the closure for this `Sibling` -/
 theorem step2_following_gen (n : Nat) (hin : StepIH d cfg dec n) (a : AxisInfo) (sib : Bool)
     (hstart : ∀ (x : Ref) (c : Ref), Good d x → Good d c →
-      (Good d (folStart d a sib x c).1.1 ∧ innerInv d (folStart d a sib x c).1.2) ∧ Good d (folStart d a sib x c).2 ∧
-        folCurOf d cfg a sib (folStart d a sib x c).1 0 (folStart d a sib x c).2 = folContrib d cfg a sib x)
+      (Good d (folStart d a sib x).1 ∧ innerInv d (folStart d a sib x).2) ∧
+        folCurOf d cfg a sib (folStart d a sib x) 0 c = folContrib d cfg a sib x)
     (hbody : ∀ (k : Ref × Option PQ) (p : Nat) (c : Ref), (Good d k.1 ∧ innerInv d k.2) → Good d c →
-      (∃ j k' p' c' f0, (∀ f, f0 ≤ f → folCall d cfg a sib f k p c = (.yield (j, k', p'), c')) ∧
+      (∃ j k' p' c' f0, (∀ f, f0 ≤ f → folBody d cfg a sib f k p c = (.yield (j, k', p'), c')) ∧
         (Good d k'.1 ∧ innerOK d k'.2) ∧ Good d c' ∧ Good d j ∧
         folCurOf d cfg a sib k p c = ⟨j, p', 0⟩ :: folCurOf d cfg a sib k' p' c') ∨
-      (∃ c' f0, (∀ f, f0 ≤ f → folCall d cfg a sib f k p c = (.done, c')) ∧ Good d c' ∧
+      (∃ c' f0, (∀ f, f0 ≤ f → folBody d cfg a sib f k p c = (.done, c')) ∧ Good d c' ∧
         folCurOf d cfg a sib k p c = []))
     (inp : PQ2) (hp : PSz d n inp) (it : Option (Ref × Option PQ)) (pos : Nat) (c : Ref)
     (hi : (PQ2.following a sib inp it pos).Inv d) (hg : Good d c) :
@@ -795,7 +805,7 @@ theorem step2_following_gen (n : Nat) (hin : StepIH d cfg dec n) (a : AxisInfo) 
   refine closure_flat (mach2 d cfg dec) (mach2_laws d cfg dec) (Good d) (PSz d n) (PSz_same d cfg dec n) hin
     (fun inp it p => .following a sib inp it p) (fun k => Good d k.1 ∧ innerInv d k.2)
     (fun k => Good d k.1 ∧ innerOK d k.2) (fun _ => 0) id id (fun _ => 0)
-    (fun _ x p c => some ((folStart d a sib x c).1, p, (folStart d a sib x c).2)) (folCall d cfg a sib)
+    (fun _ x p c => some (folStart d a sib x, p, c)) (folBody d cfg a sib)
     (folCurOf d cfg a sib) (folContrib d cfg a sib)
     ?rem_mk ?inv_none ?inv_some ?cons_mk ?same_mk ?pos_mk ?lvl_mk ?sny ?snd ?ssy ?ssd ?start ?body inp hp it pos c hi hg
   case rem_mk => intro inp it p c; rcases it with _ | ⟨node, q⟩ <;> rfl
@@ -837,16 +847,20 @@ theorem step2_following_gen (n : Nat) (hin : StepIH d cfg dec n) (a : AxisInfo) 
     intro f inp k p c j k' p' c' h
     obtain ⟨node, q⟩ := k
     show PQ2.select d cfg dec (f+1) _ _ = _
+    simp only [folBody, Prod.mk.injEq] at h
+    obtain ⟨h, rfl⟩ := h
     simp only [PQ2.select, h]
   case ssd =>
     intro f inp k p c c' h
     obtain ⟨node, q⟩ := k
     show PQ2.select d cfg dec (f+1) _ _ = PQ2.select d cfg dec f _ _
+    simp only [folBody, Prod.mk.injEq] at h
+    obtain ⟨h, rfl⟩ := h
     simp only [PQ2.select, h]; rfl
   case start =>
     intro x p c hgx hgc
-    obtain ⟨h1, h2, h3⟩ := hstart x c hgx hgc
-    exact ⟨(folStart d a sib x c).1, 0, (folStart d a sib x c).2, 0, fun f _ => rfl, h1, h2, h3⟩
+    obtain ⟨h1, h3⟩ := hstart x c hgx hgc
+    exact ⟨folStart d a sib x, 0, c, 0, fun f _ => rfl, h1, hgc, h3⟩
   case body =>
     intro k p c hk hgc
     exact hbody k p c hk hgc
@@ -858,7 +872,7 @@ theorem step2_following_sib (n : Nat) (hin : StepIH d cfg dec n) (a : AxisInfo)
     Step2 d cfg dec (.following a true inp it pos) c := by
   refine step2_following_gen d cfg dec n hin a true ?_ ?_ inp hp it pos c hi hg
   · intro x c hgx hgc
-    refine ⟨⟨hgx, Or.inl trivial⟩, hgc, ?_⟩
+    refine ⟨⟨hgx, Or.inl trivial⟩, ?_⟩
     simp only [folStart, if_true, folCurOf, folContrib, numbered_eq, sibCands, Bool.false_eq_true, if_false]
   · intro k p c hk hgc
     obtain ⟨node, q⟩ := k
@@ -866,29 +880,34 @@ theorem step2_following_sib (n : Nat) (hin : StepIH d cfg dec n) (a : AxisInfo)
     cases hc : (sibCands d node false).filter (test d cfg a) with
     | nil =>
       refine Or.inr ⟨c, f0, fun f hf => ?_, hgc, ?_⟩
-      · simp only [folCall, if_true, h1 f hf, hc, hdR]
+      · simp only [folBody, folCall, if_true, h1 f hf, hc, hdR]
       · simp only [folCurOf, if_true, hc, numFrom]
     | cons j rest =>
       have hgj : Good d j := by
         have hm : j ∈ (sibCands d node false).filter (test d cfg a) := by rw [hc]; exact List.mem_cons_self
         exact sibCands_good d _ node false (Nat.le_refl _) j (List.mem_filter.mp hm).1
       refine Or.inl ⟨j, (j, none), p + 1, c, f0, fun f hf => ?_, ⟨hgj, trivial⟩, hgc, hgj, ?_⟩
-      · simp only [folCall, if_true, h1 f hf, hc, hdR]
+      · simp only [folBody, folCall, if_true, h1 f hf, hc, hdR]
       · simp only [folCurOf, if_true, hc, numFrom, h2 j rest hc]
 
 /-! ## precedingQuery -/
 
-def precCurOf (a : AxisInfo) (sib : Bool) (k : Ref × Option PQ) (p : Nat) (c : Ref) : List Item :=
-  if sib then numFrom p ((prevSibsM d k.1).filter (test d cfg a)) else precCur d cfg a c k.1 k.2 p
+def precCurOf (a : AxisInfo) (sib : Bool) (k : Ref × Option PQ) (p : Nat) (_c : Ref) : List Item :=
+  if sib then numFrom p ((prevSibsM d k.1).filter (test d cfg a)) else precCur d cfg a k.1 k.2 p
+
+/-- `p.iterator()` as a body of the closure scheme: `t.Current()` is passed through untouched -/
+def precBody (a : AxisInfo) (sib : Bool) (f : Nat) (k : Ref × Option PQ) (p : Nat) (c : Ref) :
+    Res (Ref × (Ref × Option PQ) × Nat) × Ref :=
+  (precCall d cfg a sib f k p, c)
 
 theorem step2_preceding_gen (n : Nat) (hin : StepIH d cfg dec n) (a : AxisInfo) (sib : Bool)
     (hstart : ∀ (x : Ref) (c : Ref), Good d x → Good d c →
         precCurOf d cfg a sib (x, none) 0 c = precContrib d cfg a sib x)
     (hbody : ∀ (k : Ref × Option PQ) (p : Nat) (c : Ref), (Good d k.1 ∧ innerInv d k.2) → Good d c →
-      (∃ j k' p' c' f0, (∀ f, f0 ≤ f → precCall d cfg a sib f k p c = (.yield (j, k', p'), c')) ∧
+      (∃ j k' p' c' f0, (∀ f, f0 ≤ f → precBody d cfg a sib f k p c = (.yield (j, k', p'), c')) ∧
         (Good d k'.1 ∧ innerOK d k'.2) ∧ Good d c' ∧ Good d j ∧
         precCurOf d cfg a sib k p c = ⟨j, p', 0⟩ :: precCurOf d cfg a sib k' p' c') ∨
-      (∃ c' f0, (∀ f, f0 ≤ f → precCall d cfg a sib f k p c = (.done, c')) ∧ Good d c' ∧
+      (∃ c' f0, (∀ f, f0 ≤ f → precBody d cfg a sib f k p c = (.done, c')) ∧ Good d c' ∧
         precCurOf d cfg a sib k p c = []))
     (inp : PQ2) (hp : PSz d n inp) (it : Option (Ref × Option PQ)) (pos : Nat) (c : Ref)
     (hi : (PQ2.preceding a sib inp it pos).Inv d) (hg : Good d c) :
@@ -896,7 +915,7 @@ theorem step2_preceding_gen (n : Nat) (hin : StepIH d cfg dec n) (a : AxisInfo) 
   refine closure_flat (mach2 d cfg dec) (mach2_laws d cfg dec) (Good d) (PSz d n) (PSz_same d cfg dec n) hin
     (fun inp it p => .preceding a sib inp it p) (fun k => Good d k.1 ∧ innerInv d k.2)
     (fun k => Good d k.1 ∧ innerOK d k.2) (fun _ => 0) id id (fun _ => 0)
-    (fun _ x p c => some ((x, none), p, c)) (precCall d cfg a sib)
+    (fun _ x p c => some ((x, none), p, c)) (precBody d cfg a sib)
     (precCurOf d cfg a sib) (precContrib d cfg a sib)
     ?rem_mk ?inv_none ?inv_some ?cons_mk ?same_mk ?pos_mk ?lvl_mk ?sny ?snd ?ssy ?ssd ?start ?body inp hp it pos c hi hg
   case rem_mk => intro inp it p c; rcases it with _ | ⟨node, q⟩ <;> rfl
@@ -938,11 +957,15 @@ theorem step2_preceding_gen (n : Nat) (hin : StepIH d cfg dec n) (a : AxisInfo) 
     intro f inp k p c j k' p' c' h
     obtain ⟨node, q⟩ := k
     show PQ2.select d cfg dec (f+1) _ _ = _
+    simp only [precBody, Prod.mk.injEq] at h
+    obtain ⟨h, rfl⟩ := h
     simp only [PQ2.select, h]
   case ssd =>
     intro f inp k p c c' h
     obtain ⟨node, q⟩ := k
     show PQ2.select d cfg dec (f+1) _ _ = PQ2.select d cfg dec f _ _
+    simp only [precBody, Prod.mk.injEq] at h
+    obtain ⟨h, rfl⟩ := h
     simp only [PQ2.select, h]; rfl
   case start =>
     intro x p c hgx hgc
@@ -965,12 +988,12 @@ theorem step2_preceding_sib (n : Nat) (hin : StepIH d cfg dec n) (a : AxisInfo)
     cases hc : (prevSibsM d node).filter (test d cfg a) with
     | nil =>
       refine Or.inr ⟨c, f0, fun f hf => ?_, hgc, ?_⟩
-      · simp only [precCall, if_true, h1 f hf, hc, hdR]
+      · simp only [precBody, precCall, if_true, h1 f hf, hc, hdR]
       · simp only [precCurOf, if_true, hc, numFrom]
     | cons j rest =>
       obtain ⟨hrest, hgj⟩ := h2 j rest hc
       refine Or.inl ⟨j, (j, none), p + 1, c, f0, fun f hf => ?_, ⟨hgj, trivial⟩, hgc, hgj, ?_⟩
-      · simp only [precCall, if_true, h1 f hf, hc, hdR]
+      · simp only [precBody, precCall, if_true, h1 f hf, hc, hdR]
       · simp only [precCurOf, if_true, hc, numFrom, hrest]
 
 
@@ -1143,15 +1166,16 @@ theorem step2_merge_none (n : Nat) (hin : StepIH d cfg dec n) (ch0 : PQ2) (hpc :
       intro y hy
       obtain ⟨z, hz, rfl⟩ := List.mem_map.mp hy
       exact hgl z hz
+    -- `t.Current().MoveTo(ctx)`: the buffer is served with `t.Current()` where `m.Input.Select(t)` left it
     obtain ⟨s', c3, f3, hsel3, hrem3, hcons3, hsame3, hgc3, hpos3⟩ :=
-      step2_merge_some d cfg dec inp' ch0 hcons hn _ ch' hch' c2 hbuf hgc2
+      step2_merge_some d cfg dec inp' ch0 hcons hn _ ch' hch' c' hbuf hgc'
     have hsame3 : s'.plan = (PQ2.merge inp' ch' _).plan := hsame3
     have hfull : ∀ y, full2 d cfg dec y ch' = full2 d cfg dec y ch :=
       fun y => full2_plan_congr d cfg dec ch ch' (by rw [hch', hch]) y
     have heq : (mach2 d cfg dec).rem c (.merge inp ch none)
-        = (mach2 d cfg dec).rem c2 (.merge inp' ch' (some ((full2 d cfg dec x.r ch).map (·.r)))) := by
-      show rem2 d cfg dec c _ = rem2 d cfg dec c2 _
-      simp only [rem2, hr, List.flatMap_cons, List.nil_append, rem2_cons_indep d cfg dec inp' hcons c2 c', hrem, hfull]
+        = (mach2 d cfg dec).rem c' (.merge inp' ch' (some ((full2 d cfg dec x.r ch).map (·.r)))) := by
+      show rem2 d cfg dec c _ = rem2 d cfg dec c' _
+      simp only [rem2, hr, List.flatMap_cons, List.nil_append, hrem, hfull]
     refine ⟨s', c3, max f1 (max f2 f3) + 1, fun f hf => ?_, ?_, hcons3, ?_, hgc3, ?_⟩
     · obtain ⟨f', rfl⟩ : ∃ f', f = f' + 1 := ⟨f - 1, by omega⟩
       have h1 : PQ2.select d cfg dec f' inp c = (.yield x.r, inp', c') := by rw [hsel f' (by omega)]; rfl
